@@ -29,9 +29,11 @@ type ExecResult struct {
 	Compared int // number of (query, answer) and (key, value) pairs compared between A and B
 }
 
-func (r *ExecResult) hit(s string)                 { r.Hits[s]++ }
-func (r *ExecResult) op(f string, a ...any)        { r.Ops = append(r.Ops, fmt.Sprintf(f, a...)) }
-func (r *ExecResult) find(sig, what string, d any) { r.Findings = append(r.Findings, Finding{sig, what, d}) }
+func (r *ExecResult) hit(s string)          { r.Hits[s]++ }
+func (r *ExecResult) op(f string, a ...any) { r.Ops = append(r.Ops, fmt.Sprintf(f, a...)) }
+func (r *ExecResult) find(sig, what string, d any) {
+	r.Findings = append(r.Findings, Finding{sig, what, d})
+}
 
 func (r *ExecResult) has(sig string) bool {
 	for _, f := range r.Findings {
@@ -175,7 +177,16 @@ func compareNodes(r *ExecResult, a, b *Node, u *Universe, when string, newState 
 			rb, hb, ok2 := splitContractRecord(d.B)
 			if ok1 && ok2 && ra == rb && ha != hb && isSysAddrText(addr) {
 				deployHeightOnly[addr] = true
-				add("newstate-system-contract-deploy-height-differs-after-revert", d)
+				add(sigSysHeight, d)
+				continue
+			}
+		}
+		if bucket == "ContractDeploymentHeight" && !newState && d.A != "<absent>" && d.B != "<absent>" {
+			// legacy backend with system-contract purge in Update (proposed C01 repair): same defect
+			addr := "0x" + strings.TrimLeft(strings.TrimPrefix(d.Key, "ContractDeploymentHeight/"), "0")
+			if isSysAddrText(addr) {
+				deployHeightOnly[addr] = true
+				add(sigSysHeight, d)
 				continue
 			}
 		}
@@ -208,7 +219,7 @@ func compareNodes(r *ExecResult, a, b *Node, u *Universe, when string, newState 
 	for _, d := range diffObs(oa, ob) {
 		sig := "reader-differs-after-revert:" + queryKind(d.Query)
 		if sa := sysAddrOfStateQuery(d.Query); sa != "" && deployHeightOnly[sa] {
-			sig = "newstate-system-contract-deploy-height-differs-after-revert"
+			sig = sigSysHeight
 		}
 		if m := reHeadStorage.FindStringSubmatch(d.Query); m != nil && staleLeaf[m[1]+"/"+m[2]] {
 			sig = "newstate-deleted-trie-leaf-stays-on-disk-after-revert"
@@ -272,6 +283,8 @@ func classifyRevertError(err error, newState bool, chainBefore []*lib.BlockSpec)
 	}
 	return "revert-fails-on-stored-block"
 }
+
+const sigSysHeight = "system-contract-deploy-height-differs-after-revert"
 
 const sigStaleWindow = "stale-persisted-filter-window-after-revert"
 
@@ -432,10 +445,7 @@ func restartCompare(r *ExecResult, a, b *Node, line *Line, u *Universe, newState
 	if h := probeLine.cg.Head(); h != nil {
 		v = h.Block.ProtocolVersion
 	}
-	g := NewGen(lib.NewRNG(99), newState, line.cg.Opt)
-	tx := g.G.GenTx(v)
 	spec := &lib.BlockSpec{Version: v, Diff: emptyDiff(), Txs: nil, NoTxs: true}
-	_ = tx
 	bd, err := probeLine.Next(spec)
 	if err != nil {
 		r.Skipped = "restart probe block cannot be finalised: " + err.Error()
@@ -456,8 +466,6 @@ func restartCompare(r *ExecResult, a, b *Node, line *Line, u *Universe, newState
 	if ea != nil {
 		return
 	}
-	u2 := *u
-	u2.BlockHashes = map[felt.Felt]bool{*bd.Block.Hash: true}
 	ha, _ := a2.BC.Height()
 	oa, ob := Obs{}, Obs{}
 	observeEvents(oa, a2.BC, u, ha, "")
